@@ -4,6 +4,7 @@ import MW.Drv.Led
 import MW.Model.Secrets
 import MW.Model.Sign
 import MW.Drv.Vm
+import MW.Model.KsBytes
 namespace MW.Drv.Sec
 open MW MW.Model
 
@@ -11,6 +12,9 @@ structure St where
   led : Led.St := {}
   ks : Secrets.St := {}
   addrIdx : AMap.T String (String × Nat) := []     -- address name ↦ (wallet, external index)
+  tree : KsBytes.Tree := fun _ => []               -- the keystore bucket tree, written by the byte-level writers (MW.Model.KsBytes)
+  treeOk : Bool := true                            -- no byte-level writer has failed
+  bits : AMap.T String Nat := []                   -- entropy identity ↦ entropy bits
   deriving Inhabited
 
 def init : St := {}
@@ -177,6 +181,82 @@ def withSpec (m : String) (s : Option String) : String :=
 /-- keep the ledger driver's wallet list in step (its outputs are not used for these ops) -/
 def ledAddWallet (l : Led.St) (w : String) : Led.St := (Led.step l ["wallet", w]).1
 
+-- ------------------------------------------------------------------ the byte level (op `klayout`)
+
+/-- a LENGTH-FAITHFUL instance of the byte-level primitives: every byte is 0, the lengths are the real ones (entropy of
+    the wallet's bit size, 64-byte seed, extended private keys as 111-character strings, 32-byte keys, the passphrase bytes,
+    32-byte salts / digests / derived keys, a sealed box = 24-byte nonce + 16-byte tag + plaintext) -/
+def lenC (bits : AMap.T String Nat) : KsBytes.BCrypto where
+  atom := fun s => match s with
+    | .entropy e => List.replicate (((AMap.get bits e).getD 128) / 8) 0
+    | .seed _ _ => List.replicate 64 0
+    | .acctPriv _ _ => List.replicate 111 0
+    | .addrPriv _ _ _ _ => List.replicate 32 0
+    | .key _ => List.replicate 32 0
+    | .pass p => ((Hex.decode p).getD []).map (fun _ => 0)
+  salt := fun _ => List.replicate 32 0
+  kdf := fun _ _ => List.replicate 32 0
+  sha := fun _ => List.replicate 32 0
+  box := fun _ p => List.replicate (p.length + 40) 0
+  N := 16
+  R := 8
+  P := 1
+  walletId := KsCodec.asc
+  nameOf := fun _ => none
+
+/-- the public data: 111-character extended public keys, 33-byte public keys; the coin type of the main net -/
+def pubData : KsBytes.PubData where
+  coin := MW.Gen.Keystore.coinMainnet
+  plain := fun K => match K.2 with
+    | .acct _ => List.replicate 111 0
+    | .exb => List.replicate 111 0
+    | .inb => List.replicate 111 0
+    | .pubk _ _ => List.replicate 33 0
+    | _ => []
+
+def applyTree (st : St) (r : Except KsCodec.Err KsBytes.Tree) : St :=
+  match r with
+  | .ok t => { st with tree := t }
+  | .error _ => { st with treeOk := false }
+
+/-- the byte-level machine `KsBytes.stepB` on the state BEFORE the symbolic step of the same operation -/
+def byteStep (st : St) (bits : AMap.T String Nat) (op : Secrets.Op) : St :=
+  applyTree { st with bits := bits } (KsBytes.stepB (lenC bits) pubData st.ks st.tree op)
+
+def printableB (b : Bytes) : Bool :=
+  !b.isEmpty && b.all (fun c => (97 ≤ c.toNat && c.toNat ≤ 122) || (65 ≤ c.toNat && c.toNat ≤ 90) || (48 ≤ c.toNat && c.toNat ≤ 57))
+
+def strOfBytes (b : Bytes) : String := String.ofList (b.map (fun c => Char.ofNat c.toNat))
+
+/-- one entry (bucket, key, value) in the harness's canonical form -/
+def layoutItem (names : List String) (p : KsBytes.BPath) (kb v : Bytes) : String :=
+  let nameOf (id : Bytes) : String := match names.find? (fun n => KsCodec.asc n = id) with | some n => n | none => "?"
+  match p with
+  | .aid => s!"aid/{nameOf kb}:{v.length}"
+  | .acct id =>
+    let w := nameOf id
+    if printableB kb then
+      let nm := strOfBytes kb
+      if (nm = "exChildNum" || nm = "inChildNum" || nm = "account" || nm = "coinType") && v.length = 4 then
+        s!"{w}/{nm}={KsCodec.ofLE v}"
+      else s!"{w}/{nm}:{v.length}"
+    else if kb.length = 4 then
+      let desc := match KsCodec.deserializeAccountRow v with
+        | .ok (t, raw) => (match KsCodec.deserializeHDAccountKey raw with
+          | .ok (a, b) => s!"row({t},{a.length},{b.length})"
+          | .error _ => "row(?)")
+        | .error _ => "row(?)"
+      s!"{w}/acct{KsCodec.ofLE kb}:{desc}"
+    else s!"{w}/?"
+  | .pub id => s!"{nameOf id}/pub/{KsCodec.ofLE (kb.take 4)}.{KsCodec.ofLE (kb.drop 4)}:{v.length}"
+
+/-- the entries of the byte tree below the buckets of the wallets ever named -/
+def treeEntries (t : KsBytes.Tree) (names : List String) : List (KsBytes.BPath × Bytes × Bytes) :=
+  (t .aid).map (fun e => (KsBytes.BPath.aid, e.1, e.2)) ++
+  names.flatMap (fun w =>
+    let id := KsCodec.asc w
+    (t (.acct id)).map (fun e => (KsBytes.BPath.acct id, e.1, e.2)) ++ (t (.pub id)).map (fun e => (KsBytes.BPath.pub id, e.1, e.2)))
+
 def ksStep (st : St) (op : Secrets.Op) : St × String :=
   let (ks, o) := Secrets.step st.ks op
   ({ st with ks := ks }, o.render)
@@ -186,19 +266,26 @@ def step (st : St) (args : List String) : St × String :=
   | "vm" :: rest => (st, Vm.run rest)     -- script VM model (stateless; MW.Drv.Vm)
   | ["wallet", w] =>
     let (ks, o) := Secrets.create st.ks w (defaultPass w) 128
-    if o = .ok then ({ st with ks := ks, led := ledAddWallet st.led w }, "ok") else ({ st with ks := ks }, o.render)
+    if o = .ok then
+      let st1 := byteStep st (AMap.put st.bits w 128) (.create w (defaultPass w) 128)
+      ({ st1 with ks := ks, led := ledAddWallet st.led w }, "ok")
+    else ({ st with ks := ks }, o.render)
   | ["kcreate", w, p, b] =>
     match b.toNat? with
     | none => (st, "bad-op")
     | some bits =>
       let (ks, o) := Secrets.create st.ks w p bits
-      if o = .ok then ({ st with ks := ks, led := ledAddWallet st.led w }, "ok") else ({ st with ks := ks }, o.render)
+      if o = .ok then
+        let st1 := byteStep st (AMap.put st.bits w (if bits = 0 then 128 else bits)) (.create w p bits)
+        ({ st1 with ks := ks, led := ledAddWallet st.led w }, "ok")
+      else ({ st with ks := ks }, o.render)
   | ["addr", w, a, cl] =>
     if (AMap.get st.addrIdx a).isSome then (st, "err") else
     let idx := match AMap.get st.ks.wal w with | some (r, _) => r.nExt | none => 0
     let (ks, o) := Secrets.newAddr st.ks w
     if o = .ok then
-      ({ st with ks := ks, led := (Led.step st.led ["addr", w, a, cl]).1, addrIdx := AMap.put st.addrIdx a (w, idx) }, "ok")
+      let st1 := byteStep st st.bits (.newAddr w)
+      ({ st1 with ks := ks, led := (Led.step st.led ["addr", w, a, cl]).1, addrIdx := AMap.put st.addrIdx a (w, idx) }, "ok")
     else (st, "err")
   | ["restart"] =>
     let (ks, o) := Secrets.restart st.ks st.ks.pubPass
@@ -210,13 +297,15 @@ def step (st : St) (args : List String) : St × String :=
     if (AMap.get st.ks.idents w).isNone then (st, "bad-op") else
     let (st', o) := ksStep st (.exportKS w p k)
     (st', withSpec o (gateSpec st w p))
-  | ["kimport", k, p] => ksStep st (.importKS k p)
+  | ["kimport", k, p] =>
+    ksStep (byteStep st st.bits (.importKS k p)) (.importKS k p)
   | ["kimportmn", w, p, src, e, i] =>
     match e.toNat?, i.toNat? with
     | some ext, some int =>
       let (ks, o) := Secrets.importMn st.ks w p src ext int
       let led := match o with | .okName n => ledAddWallet st.led n | _ => st.led
-      ({ st with ks := ks, led := led }, o.render)
+      let st1 := byteStep st st.bits (.importMn w p src ext int)
+      ({ st1 with ks := ks, led := led }, o.render)
     | _, _ => (st, "bad-op")
   | ["kimportmnbad", _, _, src, _, _] =>
     -- a restore from a mis-typed sentence is refused, changes nothing (refusal_inert) and the error carries no term
@@ -228,9 +317,10 @@ def step (st : St) (args : List String) : St × String :=
     (st', withSpec o (gateSpec st w p))
   | ["kremove", w, p] =>
     if (AMap.get st.ks.idents w).isNone then (st, "bad-op") else
-    let (st', o) := ksStep st (.remove w p)
+    let (st', o) := ksStep (byteStep st st.bits (.remove w p)) (.remove w p)
     (st', withSpec o (gateSpec st w p))
-  | ["kchpub", o, n] => ksStep st (.chpub o n)
+  | ["kchpub", o, n] =>
+    ksStep (byteStep st st.bits (.chpub o n)) (.chpub o n)
   | ["kchpriv", w, o, n] =>
     -- the harness selects the wallet first: a name it has never bound fails there
     if (AMap.get st.ks.idents w).isNone then (st, "err:use") else ksStep st (.chpriv w o n)
@@ -269,6 +359,16 @@ def step (st : St) (args : List String) : St × String :=
     let m := Led.joinSorted (st.ks.wal.map item)
     (st, m ++ "\t" ++ m)
   | ["kkeys"] => (st, Led.joinSorted (st.ks.db.map (fun e => keyItem e.1)))
+  | ["klayout"] =>
+    -- MODEL: the tree the byte-level writers built; SPEC: the concretisation (`bytesOf` at `loc`) of the symbolic database –
+    -- equal by MW.Props.C05Abs (`*_refines`: the tree REPRESENTS the database)
+    let C := lenC st.bits
+    let ρ := KsBytes.pubValsOf pubData st.ks.wal
+    let names := st.ks.idents.map (·.1)
+    let sp := Led.joinSorted (st.ks.db.map (fun e =>
+      layoutItem names (KsBytes.loc C e.1).1 (KsBytes.loc C e.1).2 (KsBytes.valBytes C ρ e.1 e.2)))
+    let m := Led.joinSorted ((treeEntries st.tree names).map (fun e => layoutItem names e.1 e.2.1 e.2.2))
+    (st, (if st.treeOk then m else "err-tree") ++ "\t" ++ sp)
   | ["kscan"] => (st, (if Secrets.scanClean st.ks then "clean" else "LEAK") ++ "\tclean")
   | ["sign", w, p, flag, t] =>
     match AMap.get st.led.txs t with
